@@ -217,7 +217,11 @@ JTiles(x) == IF x.k = "L" THEN x.e = x.b + 1
                   /\ \A j \in DOMAIN x.kids : JTiles(x.kids[j])
 (* token attributes as the Jigg layout names them: word -> surf, lemma -> base *)
 JiggAttrName(k) == CASE k = "word" -> "surf" [] k = "lemma" -> "base" [] OTHER -> k
-JiggTokPairs(tok) == {<<JiggAttrName(tok[i].k), tok[i].v>> : i \in DOMAIN tok}
+(* the renamed attribute replaces one the token already carries under the target name: the surface form of a Jigg token *)
+(* is the word of the derivation, its base the lemma (a token's own differing "surf"/"base" annotation is not carried) *)
+JiggOverridden(tok, k) == \/ k = "surf" /\ \E j \in DOMAIN tok : tok[j].k = "word"
+                          \/ k = "base" /\ \E j \in DOMAIN tok : tok[j].k = "lemma"
+JiggTokPairs(tok) == {<<JiggAttrName(tok[i].k), tok[i].v>> : i \in {j \in DOMAIN tok : ~JiggOverridden(tok, tok[j].k)}}
 PairsOf(attrs) == {<<attrs[i].k, attrs[i].v>> : i \in DOMAIN attrs}
 RECURSIVE JEq(_, _, _, _, _)
 JEq(d, x, toks, usesym, off) ==
